@@ -490,6 +490,40 @@ def gate_cases(rng, n):
     return out
 
 
+def burst_cases(rng, n, flavour):
+    """a long backlog: while a gate task keeps an arbiter's thread busy, 33..80 commands are queued for it; then either the last of
+    them is awaited and the arbiter stopped and joined (C10: all of them start, in order), or the system is stopped from another
+    thread with the backlog still queued — the controller's Stop for that arbiter sits behind it — and the arbiter is joined (C09)"""
+    out = []
+    for r in range(n):
+        ops = ["n:" + rng.choice("sf")]
+        narb = 1
+        if rng.random() < 0.3:
+            ops.append("n:f")
+            narb = 2
+        k = rng.randrange(narb)
+        ops.append("sp:%d:g:%s" % (k, rng.choice("oh")))
+        ops.append("aw:%d:%d" % (k, len(ops) - 1))
+        last = None
+        for _ in range(rng.randint(33, 80)):
+            ops.append("%s:%d:c:%s" % ("sf" if rng.random() < 0.7 else "sp", k, rng.choice("ooh")))
+            last = len(ops) - 1
+        if flavour == "c10":
+            ops.append("aw:%d:%d" % (k, last))
+            ops.append("st:%d:%s" % (k, rng.choice("oh")))
+            ops.append("j:%d" % k)
+            if narb == 2:
+                ops += ["st:%d:o" % (1 - k), "j:%d" % (1 - k)]
+        else:
+            ops.append("ss:%d:%s" % (rng.choice(CODES), rng.choice("ft")))
+            ops.append("wr")
+            for j in range(narb):
+                ops.append("j:%d" % j)
+        seed = rng.randrange(1, 10 ** 6) * 4 + r % 4
+        out.append("%s %d %s" % ("R" if r % 3 == 0 else "W", seed, " ".join(ops)))
+    return out
+
+
 def busy_system_cases(rng, n):
     """the system thread is kept busy (d:90 ... d:91: it drains nothing) while arbiters are created, stopped early and the system is
     stopped: registrations, deregistrations and the exit command pile up in the system's command queue and must all be honoured"""
@@ -546,6 +580,7 @@ def check(ctx, pid):
         cases += gate_cases(ctx.rng, 150 if quick else 3000)
     if flavour == "c09":
         cases += busy_system_cases(ctx.rng, 120 if quick else 2500)
+    cases += burst_cases(ctx.rng, 10 if quick else 200, flavour)
     for i, s in enumerate(scripts):
         base = ctx.rng.randrange(1, 10 ** 6) * 4
         userun = (i % 4 == 0)
